@@ -21,7 +21,6 @@
 package internal
 
 import (
-	"bytes"
 	"strconv"
 )
 
@@ -54,7 +53,23 @@ func UnquoteDoubleQuoted(in []byte) (string, error) {
 //	unescapeQuotes([]byte{'\\', '"'}, '"') == []byte{'"'}
 //	unescapeQuotes([]byte{'\\', '\''}, '\'') == []byte{'\''}
 func unescapeQuotes(in []byte, quote byte) []byte {
-	return bytes.ReplaceAll(in, []byte{'\\', quote}, []byte{quote})
+	// Escapes are read left to right so that an escaped backslash followed
+	// by a quote ("\\'") is not mistaken for an escaped quote.
+	out := make([]byte, 0, len(in))
+	for i := 0; i < len(in); i++ {
+		c := in[i]
+		if c == '\\' && i+1 < len(in) {
+			i++
+			if in[i] == quote {
+				out = append(out, quote)
+			} else {
+				out = append(out, c, in[i])
+			}
+			continue
+		}
+		out = append(out, c)
+	}
+	return out
 }
 
 // swapQuotes replaces all single quotes with double quotes and all double
